@@ -529,10 +529,20 @@ namespace {
          for (std::size_t i = 0; i < b.made.size(); ++i) ctx.namer.names.insert({ static_cast<const void*>(b.made[i]), "n" + std::to_string(i) });
          std::vector<std::string> fp;
          for (auto n : b.made) fp.push_back(zoo::observe(ctx, *n));
-         off = print_unit(lex, unit, false, outcome);
-         on = print_unit(lex, unit, true, o2);
-         off2 = print_unit(lex, unit, false, o3);
-         on2 = print_unit(lex, unit, true, o4);
+         // four printers on four streams, all alive at the same time (a printer must not depend on being the only one)
+         {
+            std::ostringstream s1, s2, s3, s4;
+            ipr::Printer p1{ lex, s1 }, p2{ lex, s2 }, p3{ lex, s3 }, p4{ lex, s4 };
+            p2.print_locations = true;
+            p4.print_locations = true;
+            auto print = [&](ipr::Printer& pp, std::string& oc) {
+               try { pp << unit; oc = "completed"; }
+               catch (const std::logic_error&) { oc = "logic_error"; }
+               catch (...) { oc = "other-exception"; }
+            };
+            print(p1, outcome); print(p2, o2); print(p3, o3); print(p4, o4);
+            off = s1.str(); on = s2.str(); off2 = s3.str(); on2 = s4.str();
+         }
          if (o2 != outcome or o3 != outcome or o4 != outcome) outcome = "unstable-outcome:" + outcome + "/" + o2 + "/" + o3 + "/" + o4;
          for (std::size_t i = 0; i < b.made.size(); ++i) if (zoo::observe(ctx, *b.made[i]) != fp[i]) kept = false;
          tokens = b.expected_tokens;
